@@ -711,6 +711,19 @@ class Laws(object):
                     a2['approx'] = approx or any(exits[i].get('approx') for i in it['ids'])
                     refined.append((a2, it['ids']))
         if all_known and len(refined) <= MAX_ALTS:
+            # guards are the clean part of the path conditions.  Two cases whose guards do not exclude
+            # each other (no condition decided one way in one and the other way in the other) were
+            # separated by something the guard does not say: a caller would explore them in states of
+            # the other, so verdicts through either are not reported as violations
+            alts_ = [alt for (alt, ids) in refined]
+            for i_, a_ in enumerate(alts_):
+                ca = set(a_['conds'])
+                for j_, b_ in enumerate(alts_):
+                    if j_ <= i_:
+                        continue
+                    if not any((c_, not v_) in ca for (c_, v_) in b_['conds']):
+                        a_['approx'] = True
+                        b_['approx'] = True
             for (alt, ids) in refined:
                 lw.alts.append(alt)
         else:
